@@ -351,6 +351,8 @@ def exhaustive(fam, nkeys, maxrows, minrows=0):
 
 def random_spec(rng, fam, interleave=False):
     n = rng.choice([0, 1, 2, 3, 5, 8, 13, 20, 35, 60]) if rng.random() < 0.5 else rng.randint(2, 12)
+    if rng.random() < 0.02:
+        n = rng.choice([129, 257, 300])          # now and then a long table (size-triggered strategies)
     ncols = rng.randint(2, 5)
     cols, kinds = [], []
     for i in range(ncols):
